@@ -53,17 +53,17 @@ CHECKS = {
   "Misuse classes (index outside the shape incl. negative, string too long for the space fixed at creation, array update of another length, same-length update with larger dynamic items, union non-member by object and by name, buffer of another context, offset without buffer) executed on symbolically placed objects with live neighbours: an exception must be raised, the write log must be unchanged at that point for every placement, object and neighbours keep their values.",
   W_NOTE, W_TECH),
  "C17": (MC, "section 15/C17",
-  "PARTIAL. The real KernelDispatcher.__call__, KernelCpu.__call__ and KernelCpu.to_function_arg are executed for xobjects living at SYMBOLIC offsets of symbolically placed buffers (several objects per buffer; after growth by symbolic amounts, allocation of symbolic sizes until growth, further allocations). The three foreign calls of that code are stubs (S12): ffi.from_buffer(x) = address of the first byte of x, ffi.cast(ctype, address) = typed pointer, np.frombuffer(storage).ctypes.data = address of the storage, where an address is (storage identity, z3 offset term); the compiled function is a recorder that refuses a pointer whose C type differs from the declared one (what cffi does at the call) and keeps its arguments. Obligations decided by z3 for every placement: each xobject argument (struct, nested/dynamic struct, array object, union holder) is a pointer of its declared C type into the CURRENT storage of its buffer at exactly the object's offset; an xobject array passed where a pointer to scalars is declared points to offset + data offset with the item's C type; declared argument order; NumPy arrays/slices give a pointer to their first element with their element type; the declared return value is handed back unchanged. Enumerated, decided by execution (no solver variable involved): scalar conversion for the 10 scalar types at their extremes, refusal of positional/missing/extra/misspelt arguments and of arrays of another element type. Everything the stubs hide (cffi, the compiled code) is covered only by the concrete validation pass, which runs the same scenario with real compiled probe kernels that report the address / element / scalar they received, serial and OpenMP.",
+  "PARTIAL. The real KernelDispatcher.__call__, KernelCpu.__call__ and KernelCpu.to_function_arg are executed for xobjects living at SYMBOLIC offsets of symbolically placed buffers (several objects per buffer; after growth by symbolic amounts, allocation of symbolic sizes until growth, further allocations). The three foreign calls of that code are stubs (S15): ffi.from_buffer(x) = address of the first byte of x, ffi.cast(ctype, address) = typed pointer, np.frombuffer(storage).ctypes.data = address of the storage, where an address is (storage identity, z3 offset term); the compiled function is a recorder that refuses a pointer whose C type differs from the declared one (what cffi does at the call) and keeps its arguments. Obligations decided by z3 for every placement: each xobject argument (struct, nested/dynamic struct, array object, union holder) is a pointer of its declared C type into the CURRENT storage of its buffer at exactly the object's offset; an xobject array passed where a pointer to scalars is declared points to offset + data offset with the item's C type; declared argument order; NumPy arrays/slices give a pointer to their first element with their element type; the declared return value is handed back unchanged. Enumerated, decided by execution (no solver variable involved): scalar conversion for the 10 scalar types at their extremes, refusal of positional/missing/extra/misspelt arguments and of arrays of another element type. Everything the stubs hide (cffi, the compiled code) is covered only by the concrete validation pass, which runs the same scenario with real compiled probe kernels that report the address / element / scalar they received, serial and OpenMP.",
   W_NOTE + " C17: 6 xobject types, 20 probe kernels (enumerated); GPU contexts, kernels with n_threads (launch geometry is C16), and the C semantics of the compiled kernel are outside the claim.", W_TECH),
  "C18": (MC, "section 15/C18",
   "Histories (set a leaf through the dressed attribute / through the underlying struct, assign a scalar-array field, assign a dressed object to a nested field from the same or another buffer, assign to a reference field from the same / another buffer, copy into the same / another / a new buffer, move, move a nested part) executed with the real HybridClass machinery (descriptors, rename tables, _reinit_from_xobject, copy, move) on hybrid classes of a bounded catalogue placed on symbolic buffers. After every step, for every placement on the path: the dressed attributes, the underlying struct view and a plain-Python model agree (incl. renamed fields); every nested dressed part lives in its container's buffer at the offset of the field it dresses (z3 equality of offset terms); a nested assignment stores a copy inside the container, disjoint from the assigned object (z3), allocating nothing, independent both ways; a reference assignment shares (same offset, no allocation, same Python object) and is refused across buffers leaving the object unchanged; copy is equal, of the same class, disjoint/in the requested buffer, independent both ways; move ends in the target buffer with equal value and all nested parts relocated, and is refused for nested parts and reference-bearing objects.",
-  W_NOTE + " C18: 7 hybrid class definitions quick / 10 thorough (scalars with and without declared defaults, strings, scalar arrays of 1-3 axes, nested hybrid classes up to 3 levels, references to hybrid classes, renamed fields), 8 / 11 histories of <= 5 steps, nested parts given as dicts or as dressed objects; placements: roomy free chunk, capacity 0 with growth at every allocation, arbitrary (tight) free chunk with solver forks per allocation. The typed NumPy views of the symbolic buffer are write-back arrays (stub S11: an element assignment through a view is stored to the write-log), validated by the concrete pass.", W_TECH),
+  W_NOTE + " C18: 7 hybrid class definitions quick / 10 thorough (scalars with and without declared defaults, strings, scalar arrays of 1-3 axes, nested hybrid classes up to 3 levels, references to hybrid classes, renamed fields), 8 / 11 histories of <= 5 steps, nested parts given as dicts or as dressed objects; placements: roomy free chunk, capacity 0 with growth at every allocation, arbitrary (tight) free chunk with solver forks per allocation. The typed NumPy views of the symbolic buffer are write-back arrays (stub S14: an element assignment through a view is stored to the write-log), validated by the concrete pass.", W_TECH),
  "C19": (MC, "section 15/C19",
   "Dictionary form: hybrid objects of the bounded catalogue are built on symbolically placed buffers (values ordinary / equal to the declared defaults at the top level or in nested classes / type extremes / empty arrays), to_dict() (with the copy into the default context, which is a symbolic context in the symbolic run, and with copy_to_cpu=False) and from_dict() into a second symbolically placed buffer are the real code; for every placement: scalar fields equal to their DECLARED default are absent from the dictionary (also under renaming and in nested classes), to_dict leaves the object unchanged, the rebuilt object is of the class and equal at every field, its nested dressed parts sit on their fields, its own dictionary has the same keys. JSON form: for every reference-free struct and one-dimensional array type of the type catalogue, T(x._to_json()) built into a second buffer reads back x's value; x and its neighbours are unchanged.",
   W_NOTE + " C19: hybrid classes/values as C18; default factories are not in the catalogue (outside the claim); json.dumps-serialisability of the forms is not claimed.", W_TECH),
  "C20": (MC, "5/C20 (section 15)",
   "PARTIAL. Pickle round trip of a group of objects sharing one symbolically placed buffer (the object, a second object of the same type, an Int64 array), for every catalogue struct/array type and every hybrid class of the C18 catalogue: the object protocol pickle drives (__reduce_ex__(4), the classes' own __getstate__/__setstate__ or instance __dict__, one memo) is executed in Python over the real classes with solver terms as offsets/capacity/free list; afterwards, for every placement: same value at every field, same offset and size, restored objects share one buffer distinct from the original's, writes through the copy stay inside the copy (frame, z3) and do not reach the original, an allocation in the restored buffer is disjoint (z3) from every restored object (the restored free list is a working allocator state), the restored object can be the source of a copy. The serialiser itself (the C pickle module, NumPy's array pickling, ContextCpu state) runs only in the concrete validation pass and in replays, which use the real pickle.dumps/loads.",
-  W_NOTE + " C20: stub S10 (copy.deepcopy = pickle's object protocol with by-value leaves; inconclusive if an xobjects class defined __deepcopy__/__copy__); hybrid classes: the C18 catalogue (nested dressed parts must sit on their fields after unpickling); GPU contexts outside the claim.", W_TECH),
+  W_NOTE + " C20: stub S13 (copy.deepcopy = pickle's object protocol with by-value leaves; inconclusive if an xobjects class defined __deepcopy__/__copy__); hybrid classes: the C18 catalogue (nested dressed parts must sit on their fields after unpickling); GPU contexts outside the claim.", W_TECH),
  "C13": (MC, "5/C13",
   "PARTIAL. The real slice-arithmetic primitives of BufferNumpy and BufferByteArray (update_from_native incl. overlapping same-storage copies, copy_to_native, to_native, update_from_buffer, to_bytearray, to_pointer_arg) and XBuffer.update_from_xbuffer (same context / other context / other buffer kind) are executed on a symbolic byte-container model whose length and content are solver variables; for every capacity, offset, source offset and length with ranges inside both containers a Skolem-position postcondition is proved: exactly the requested bytes change, to exactly the source bytes, lengths unchanged, source untouched, extracted copies are not views. NOT covered: update_from_nplike, to_nplike/to_nparray, scalar.py helpers (NumPy dtype conversion/views are C code outside the technique).",
   "S6: container model of bytearray / 1-D int8 ndarray slicing (clamping, bytearray length change, ndarray broadcast error, view aliasing), validated each run against the real containers on ~2000 small cases; len/bytearray names in xobjects.context_cpu are replaced for the run.",
